@@ -776,6 +776,8 @@ class Executor:
     EXP=z3.Function("exp", FPS, FPS)
     INTERP=z3.Function("interp", FPS, FPS)
     INTERPR=z3.Function("interpr", z3.RealSort(), z3.RealSort())
+    LOG2=z3.Function("log2", FPS, FPS)
+    LOG2R=z3.Function("log2r", z3.RealSort(), z3.RealSort())
     INTERPT=z3.Function("interp_tab", z3.RealSort(), z3.ArraySort(z3.IntSort(), z3.RealSort()), z3.ArraySort(z3.IntSort(), z3.RealSort()), z3.RealSort())
     POW=z3.Function("pow", FPS, FPS, FPS)
     LOG=z3.Function("log", FPS, FPS)
@@ -1016,6 +1018,13 @@ class Executor:
             if getattr(self,'fpmode','fp')=='real':
                 return Val(types.float64, Executor.INTERPR(x.t))
             return Val(types.float64, Executor.INTERP(x.t))
+        if f is np.log2:
+            x=cast(a[0], types.float64, self)
+            return Val(types.float64, (Executor.LOG2R if self.fpmode=='real' else Executor.LOG2)(x.t))
+        if f is np.floor or f is math.floor:
+            x=cast(a[0], types.float64, self)
+            if self.fpmode=='real': return Val(types.float64, z3.ToReal(z3.ToInt(x.t)))
+            return Val(types.float64, z3.fpRoundToIntegral(z3.RTN(), x.t))
         if f is np.log or f is np.exp:
             x=cast(a[0], types.float64, self)
             if getattr(self,'fpmode','fp')=='real':
